@@ -269,6 +269,17 @@ def judge(ctx, pid, scenarios, lines):
     seen = set()
     other = {}
     forced = {ln.get("scn") for ln in lines if ln.get("ev") == "Hook" and str(ln.get("point", "")).startswith("api.force")}
+    # a scenario in which a call of the harness ran into its client-side deadline did not run as scripted (its trace is cut
+    # short): it is not judged; too many of them make the run inconclusive
+    cut = {ln.get("scn") for ln in lines if (ln.get("ev") == "ApiReply" and ln.get("timeout")) or (ln.get("ev") == "End" and ln.get("tainted"))
+           or (ln.get("ev") == "Awaited" and ln.get("returned") is False)}
+    cut.discard(None)
+    if cut:
+        ctx.extra["scenarios_not_judged_after_a_client_timeout"] = len(cut)
+        if len(cut) > max(3, len(scenarios) // 25):
+            raise vlib.Inconclusive("%d of %d scenarios ran into a client-side deadline" % (len(cut), len(scenarios)))
+        viol = [v for v in viol if v[2] not in cut]
+        ctx.drift = [d for d in ctx.drift if d.get("scn") not in cut]
     for v in viol:
         inv, scn = v[1], v[2]
         if (inv, scn) in seen:
